@@ -229,7 +229,7 @@ def run(cx):
     hashes = {}
     ws = cc.witnesses()
     hs = []
-    for name in ("F23", "F133", "F135", "F132", "F137"):
+    for name in ("F23", "F133", "F135", "F132", "F137", "order"):
         h = ws[name][1]
         if name == "F137":
             h = h.without_call(1)       # the state right after the successful call that leaves `maa` implemented and not compiled
